@@ -266,6 +266,15 @@ def _tag(lit):
     return {"Integer": lit}
 
 
+def _unnamed_forms(params):
+    """the same closure with some or all parameters written as the bare `_`"""
+    if params == "|p0, p1|":
+        return ["|_, p1|", "|p0, _|", "|_, _|"]
+    if params == "|p0|":
+        return ["|_|"]
+    return []
+
+
 def runner_witness(role):
     """role: 'C13:Runner::map_key:param0-restored:body-error' etc. -> list of (spec, expect) variants (tried in order)"""
     m = re.match(r"^(C\d+):Runner::(\w+):(.*)$", role)
@@ -308,11 +317,15 @@ def runner_witness(role):
             exp["event_eq"] = {"r": {"Object": {"a": {"Integer": "5"}}}}
         if method == "map_key":
             exp["event_eq"] = {"r": {"Object": {"ret": {"Integer": "1"}}}}
-        return [({"source": src, "event": {"yes": True}}, exp)]
+        out = [({"source": src, "event": {"yes": True}}, exp)]
+        for pf in _unnamed_forms(params):
+            out.append(({"source": src.replace(params, pf), "event": {"yes": True}}, exp))
+        return out
     if prop == "C07" and tag == "body-abort-propagates":
         body = f"{{ .ran_body = true; if .yes == true {{ abort }}; {tail} }}"
         src = f".r = {call} -> {params} {body}\n.after = true\n"
-        return [({"source": src, "event": {"yes": True}}, {"outcome": "abort", "event_has": ["ran_body"], "event_lacks": ["after"]})]
+        exp = {"outcome": "abort", "event_has": ["ran_body"], "event_lacks": ["after"]}
+        return [({"source": src.replace(params, pf), "event": {"yes": True}}, exp) for pf in [params] + _unnamed_forms(params)]
     return None
 
 
